@@ -224,6 +224,17 @@ pub fn mutants(problem: &Value, solution: &Value) -> Vec<Mutant> {
                             true
                         }, &mut out);
                     }
+                    // the cumulative distance is lost altogether at this stop (a value which looks like "no distance")
+                    // (only when another stop of the solution keeps a distance: a solution whose distances are all zero
+                    // is documented by the checker as "format without distances", no distance rule applies to it)
+                    let d = stop["distance"].as_i64().unwrap_or(0);
+                    let others_with_distance = tours.iter().flat_map(|t| t["stops"].as_array().into_iter().flatten()).filter(|s| s["distance"].as_i64().unwrap_or(0) > 0).count();
+                    if d >= 5 && others_with_distance >= 2 {
+                        s_mut("distance-mismatch", format!("tour{ti}.stop{si}.distance=0"), &|s| {
+                            s["tours"][ti]["stops"][si]["distance"] = json!(0);
+                            true
+                        }, &mut out);
+                    }
                 }
             }
         }
